@@ -13,7 +13,8 @@ from ..runner import Part, Violation
 ID = "C13"
 RULE = ("part 'kinds' (exhaustive): every sequence of <= 3 (quick) / <= 4 (thorough) lines over 15 line kinds "
         "{H, H VN:1.0, H VN:2.0, #, S gfa1, S gfa2, L, C, P, E, F, G, O, U, custom} x version parameter {none, "
-        "gfa1, gfa2} x vlevel {1, 2}, driven incrementally (Gfa() + add_line + process_line_queue) with strings and "
+        "gfa1, gfa2} x vlevel {0, 1, 2} (at level 0 a conflicting sequence that contains a VN header is not judged), plus the "
+        "same sequences with repeated kinds spelled identically (two equal custom / comment / C / E / F / G lines), driven incrementally (Gfa() + add_line + process_line_queue) with strings and "
         "with gfapy.Line objects and, when every "
         "reference is defined, through Gfa(list); rGFA dialect on the S/L subset. part 'docs': generated valid "
         "documents, pure or with one line of the other version injected, in random orders, via Gfa(list) and "
@@ -22,7 +23,7 @@ RULE = ("part 'kinds' (exhaustive): every sequence of <= 3 (quick) / <= 4 (thoro
         "conflict; every non-header line present exactly once afterwards. non-trivial = the line that fixes the "
         "version is preceded by >= 1 line that had to be queued; distinct by (sequence, parameters)")
 ASSUMPTIONS = [
-    "vlevel >= 1 (level 0 documents that it skips the VN cross-check)",
+    "the cross-check between a VN header and the content is judged at vlevel >= 1 only (level 0 documents that it skips it); every other conflict also at level 0",
     "custom records are GFA2-only constructs (gfapy documents that GFA1 has no custom records)",
     "with the rGFA dialect only S (with SN/SO/SR) and L (0M) lines are used, and at least one version-specific line is present",
 ]
@@ -95,13 +96,28 @@ def check_result(g, seq, want, ctx):
         raise Violation("queue-left", "%s: %d lines left in the queue" % (ctx, len(g._line_queue)))
 
 
+DUP_OK = {"#", "X", "C", "E", "F", "G"}  # records that may occur twice with the same text
+
+
+def _idx(seq, i, same):
+    """Index used to spell line i: with same=True a repeated kind that may legally occur twice is
+    spelled exactly like its first occurrence (two identical lines)."""
+    if same and seq[i] in DUP_OK:
+        return seq.index(seq[i])
+    return i
+
+
 def prop_kinds(case):
     seq, param, vlevel, dialect = case["seq"], case["param"], case["vlevel"], case.get("dialect", "standard")
+    same = bool(case.get("same"))
     rgfa = dialect == "rgfa"
     want = expected(seq, param, dialect)
+    if vlevel == 0 and want == "error" and any(k in ("H1", "H2") for k in seq):
+        # a conflict that may involve a VN header: level 0 documents that this cross-check is skipped
+        return {"nt": False, "not_judged_v0": True}
     segs = ["s%d" % i for i, k in enumerate(seq) if k in ("S1", "S2")]
     # driver 1: incremental, references to identifiers that are never defined
-    lines = [make_line(k, i, "X%d" % i, "Y%d" % i, rgfa) for i, k in enumerate(seq)]
+    lines = [make_line(k, _idx(seq, i, same), "X%d" % _idx(seq, i, same), "Y%d" % _idx(seq, i, same), rgfa) for i, k in enumerate(seq)]
     ctx = "sequence %s param=%s vlevel=%d dialect=%s (incremental)\n%s" % (seq, param, vlevel, dialect, "\n".join(lines))
     kw = {"vlevel": vlevel, "dialect": dialect}
     if param:
@@ -158,7 +174,7 @@ def prop_kinds(case):
     # driver 2: Gfa(list), only when all references can be defined
     if segs:
         x, y = segs[0], segs[-1]
-        lines2 = [make_line(k, i, x, y, rgfa) for i, k in enumerate(seq)]
+        lines2 = [make_line(k, _idx(seq, i, same), x, y, rgfa) for i, k in enumerate(seq)]
         if seq.count("L") > 1:
             lines2 = None  # would repeat the same link
         if lines2 is not None:
@@ -182,7 +198,7 @@ def prop_kinds(case):
                 check_result(g2, seq, want, ctx2)
     d = first_decider(seq, param)
     nt = d is not None and d > 0 and any(k in QUEUED for k in seq[:d])
-    return {"nt": nt, "want": want, "len": len(seq)}
+    return {"nt": nt, "want": want, "len": len(seq), "vlevel": vlevel, "identical_lines": same}
 
 
 def enum_kinds(maxlen):
@@ -194,8 +210,10 @@ def enum_kinds(maxlen):
                     i += 1
                     if i % nshards != shard:
                         continue
-                    for vlevel in (1, 2):
+                    for vlevel in (1, 2, 0):
                         yield {"seq": list(seq), "param": param, "vlevel": vlevel}
+                    if any(k in DUP_OK and seq.count(k) > 1 for k in seq):
+                        yield {"seq": list(seq), "param": param, "vlevel": 1 + (i % 2), "same": True}
         rk = ["#", "S1", "S2", "L", "E", "X"]
         for n in range(1, maxlen + 1):
             for seq in itertools.product(rk, repeat=n):
